@@ -2,6 +2,7 @@ import ColoVerif.Model.CoresChecked
 import ColoVerif.Model.TetrisChecked
 import ColoVerif.Model.IncrNetChecked
 import ColoVerif.Model.DetPlaceChecked
+import ColoVerif.Model.Transp1d
 import Driver.Common
 /-
 Driver for C07: replays the harness' operation streams through the CHECKED models.
@@ -31,6 +32,8 @@ Driver for C07: replays the harness' operation streams through the CHECKED model
   dcanswap a b / dcaninsert c r p       -> <op> 0|1|throw:runtime_error      (canSwapC / canInsertC)
   dposswap a b / dposinsert c r p       -> <op> x1 y1 x2 y2 / <op> x y       (positionsOnSwapC / positionOnInsertC)
   dswap a b / dinsert c r p             -> <op> ok (x row)* | <op> throw:runtime_error   (swapC / insertC)
+  t1d <n> <m> u.. v.. s.. d..           -> t1d k0 k1 .. | t1d throw:runtime_error | fault indexOutOfRange
+                                           Transportation1d(u, v, s, d).assign()   (Transp1d.assign)
 
 Outside an `xcase` a fault is printed in place as `fault <site>` (the in-domain streams
 must never show one).
@@ -167,6 +170,17 @@ def step (d : DS) : List String → DS × List String
     match d.im.updateCellPosC (int! c).toNat (int! p) with
     | .ok m => emit { d with im := m } d.st ("iupd " ++ toString m.value)
     | .error f => fault d f
+  | "t1d" :: n :: m :: rest =>
+    if d.faulted then (d, []) else
+    let xs := rest.map fun x => int! x
+    let n := (int! n).toNat
+    let m := (int! m).toNat
+    match Transp1d.assign ⟨xs.take n, (xs.drop n).take m, (xs.drop (n + m)).take n, (xs.drop (n + m + n)).take m⟩ with
+    | .ok a => emit d d.st ("t1d" ++ String.join (a.map fun k => " " ++ toString k))
+    | .error .invalid => emit d d.st "t1d throw:runtime_error"
+    | .error .indexOutOfRange => fault d (.indexOutOfRange "Transportation1d")
+    | .error .divByZero => fault d (.divByZero "Transportation1d")
+    | .error .outOfFuel => fault d (.assertFailed "Transportation1d: model fuel exhausted")
   | ["dnew"] => ({ d with drows := [], dcells := [], ds := none }, [])
   | ["drow", a, b, c, e, o] =>
     ({ d with drows := d.drows ++ [⟨⟨int! a, int! b, int! c, int! e⟩, Orient.ofCode (int! o).toNat⟩] }, [])
